@@ -9,28 +9,11 @@
 #include "verif.h"
 using namespace ASAM::CMP;
 
-#ifndef NOPS
-#define NOPS 3
-#endif
-#ifndef OP0
-#define OP0 0
-#endif
-#ifndef OP1
-#define OP1 0
-#endif
-#ifndef OP2
-#define OP2 0
-#endif
-#ifndef OP3
-#define OP3 0
-#endif
-#ifndef OP4
-#define OP4 0
-#endif
-#ifndef OP5
-#define OP5 0
-#endif
-static const int OPS[6] = {OP0, OP1, OP2, OP3, OP4, OP5};
+// the operation sequence is bound after translation (rt/vp_cdefs.h): VP_OPS / VP_NOPS are constants of the goto binary
+extern "C" unsigned vp_op(unsigned k);
+extern "C" unsigned vp_nops(unsigned seq);
+extern "C" unsigned vp_nseq(void);
+#define MAXSEQ 16
 enum { K_CM = 0, K_IF = 1, K_DATA = 2, K_RMDEV = 3, K_RMIF = 4, K_CLEAR = 5, K_VENDORSTAT = 6 };
 #define ND 3
 #define NI 3
@@ -70,9 +53,12 @@ static Packet* mkPacket(int kind, int d, int i, uint64_t tag)
     }
     else
     {
-        uint8_t b[8];
-        vp_bytes(b, 8);
-        p->setPayload(Payload(PayloadType(CmpHeader::MessageType::data, 0xFE), b, 8));
+        // data message; the interface index selects the payload type byte: generic 0xFE, CAN (1) or CAN-FD (2), whose type
+        // bytes coincide with those of the capture-module (0x0301) / interface (0x0302) status messages
+        static const uint8_t rawType[3] = {0xFE, 1, 2};
+        uint8_t b[40];
+        vp_bytes(b, 40);
+        p->setPayload(Payload(PayloadType(CmpHeader::MessageType::data, rawType[i]), b, 40));
     }
     p->setDeviceId(DEVID[d]);
     p->setTimestamp(tag);
@@ -122,7 +108,7 @@ static void compare(const Status& s)
     }
 }
 
-VP_HARNESS(h_status)
+static void runSequence(unsigned seq)
 {
     Status* s = new Status;
     for (int d = 0; d < ND; ++d)
@@ -132,11 +118,15 @@ VP_HARNESS(h_status)
             g.itf[d][i] = false;
     }
     compare(*s);
-    for (int k = 0; k < NOPS; ++k)
+    const int nops = static_cast<int>(vp_nops(seq));
+    for (int k = 0; k < 8; ++k)
     {
-        const int kind = OPS[k] >> 4, d = (OPS[k] >> 2) & 3, i = OPS[k] & 3;
-        // identity tags are concrete and distinct: Packet::operator= branches on operator==, and a symbolic tag would make
-        // every stored-packet assignment a symbolic branch (measured: 13.6 M variables for six operations)
+        if (k >= nops)
+            break;
+        const int opk = static_cast<int>(vp_op(seq * 8 + k));
+        const int kind = opk >> 4, d = (opk >> 2) & 3, i = opk & 3;
+        // identity tags are concrete and distinct: Packet::operator= used to branch on operator==, and a symbolic tag makes
+        // every stored-packet comparison a symbolic branch (measured: 13.6 M variables for six operations)
         const uint64_t tag = 0x1000 + k;
         if (kind == K_CM || kind == K_IF || kind == K_DATA || kind == K_VENDORSTAT)
         {
@@ -178,5 +168,17 @@ VP_HARNESS(h_status)
             }
         }
         compare(*s);
+    }
+}
+
+// one query runs up to MAXSEQ operation sequences (each on a fresh Status object)
+VP_HARNESS(h_status)
+{
+    const unsigned n = vp_nseq();
+    for (unsigned seq = 0; seq < MAXSEQ; ++seq)
+    {
+        if (seq >= n)
+            break;
+        runSequence(seq);
     }
 }
